@@ -43,11 +43,18 @@
     that value is the processor's — shrd: dest / 2^c OR-ed with (src * 2^(n-c)) mod 2^n; shld: the count masked to five bits, count 0
     keeps the destination, otherwise (dest * 2^c) mod 2^n OR-ed with src / 2^(n-c).  Counts above the width (shrd does not mask its
     count; 16-bit operands with counts 17..31 are architecturally undefined) and the flags are left to the evaluation.
+    Multiply / divide (mul, imul with one, two and three operands, div, idiv; 8/16/32 bits): every regenerated list is, node for node,
+    the mirror SemMulDiv.mirror_muldiv of the dumped operands; under Expr.eval — whose reading of the lifter's named wide operators
+    (umulN_hi/lo, imulN_hi/lo, umul08, imul08, divN, remN, idivN, iremN; the library itself never evaluates them) is Expr.named_op —
+    edx:eax / dx:ax / ax is the unsigned product of the accumulator and the operand, the signed double-width product modulo 2^(2n),
+    the two- and three-operand imul yields the product truncated to n bits (the same for signed and unsigned readings), and when the
+    divisor is non-zero and the quotient fits (no #DE) div / idiv leave the quotient and remainder of the double-width dividend
+    (truncating division of the signed readings for idiv).  The flags of this group are left to the evaluation (known findings).
     af is refuted (known finding: the formula is pinned by tests/test_emul.py).  Everything else of the integer core (flags of
-    shifts and rotates, rcl/rcr, mul/div, other control transfers ...) is decided by evaluating the regenerated IR with the
+    shifts and rotates, rcl/rcr, other control transfers ...) is decided by evaluating the regenerated IR with the
     extracted Expr.eval against the SDM reference (harness/p_c04.py), not by a theorem. *)
 From Coq Require Import ZArith List Bool String.
-From Mx Require Import Expr Wf Sem SemProofs SemFacts SemCC SemCCProofs SemCCFacts SemMov SemMovProofs SemMovFacts SemShift SemShiftProofs SemShiftFacts SemCtl SemCtlProofs SemCtlFacts SemStr SemStrProofs SemStrFacts SemFlagMove SemFlagMoveFacts SemMisc SemMiscProofs SemMiscFacts SemDShift SemDShiftProofs SemDShiftFacts.
+From Mx Require Import Expr Wf Sem SemProofs SemFacts SemCC SemCCProofs SemCCFacts SemMov SemMovProofs SemMovFacts SemShift SemShiftProofs SemShiftFacts SemCtl SemCtlProofs SemCtlFacts SemStr SemStrProofs SemStrFacts SemFlagMove SemFlagMoveFacts SemMisc SemMiscProofs SemMiscFacts SemDShift SemDShiftProofs SemDShiftFacts SemMulDiv SemMulDivProofs SemMulDivFacts.
 From MxGen Require Import LiftAll.
 Import ListNotations.
 Open Scope Z_scope.
@@ -374,6 +381,45 @@ Theorem C04_shld_value : forall rho mu iota a b c, operand_ok a = true -> operan
 Proof. intros rho mu iota a b c Oa Ob S Hn Oc Sc n x y k Hk. exact (shld_value rho mu iota a b Oa Ob S c Hn Oc Sc Hk). Qed.
 Print Assumptions C04_shld_value.
 
+(** mul imul div idiv *)
+Theorem C04_muldiv_forms_are_the_mirror : forall sh c k l, In sh shards -> In c sh -> muldiv_of (lc_mnemo c) = Some k -> lc_lift c = Some l ->
+  exists m, mirror_muldiv k (lc_args c) = Some m /\ forall rho mu iota, map (eval rho mu iota) l = map (eval rho mu iota) m.
+Proof. exact muldiv_forms_lifted. Qed.
+Print Assumptions C04_muldiv_forms_are_the_mirror.
+Theorem C04_mul : forall rho mu iota a, operand_ok a = true ->
+  (size a = 32 -> eval rho mu iota (EOp "umul32_hi" [eax; a]) * 2 ^ 32 + eval rho mu iota (EOp "umul32_lo" [eax; a]) = rho "eax" mod 2 ^ 32 * eval rho mu iota a) /\
+  (size a = 16 -> eval rho mu iota (EOp "umul16_hi" [r_ax; a]) * 2 ^ 16 + eval rho mu iota (EOp "umul16_lo" [r_ax; a]) = rho "eax" mod 2 ^ 16 * eval rho mu iota a) /\
+  (size a = 8 -> (eval rho mu iota (EOp "umul08" [eax; a])) mod 2 ^ 16 = rho "eax" mod 2 ^ 8 * eval rho mu iota a).
+Proof. intros rho mu iota a Oa. split; [|split]; intros Sa; [apply mul32_value | apply mul16_value | apply mul8_value]; assumption. Qed.
+Print Assumptions C04_mul.
+Theorem C04_imul_wide : forall rho mu iota a, operand_ok a = true ->
+  (size a = 32 -> eval rho mu iota (EOp "imul32_hi" [eax; a]) * 2 ^ 32 + eval rho mu iota (EOp "imul32_lo" [eax; a]) =
+                  (sgn 32 (rho "eax" mod 2 ^ 32) * sgn 32 (eval rho mu iota a)) mod 2 ^ 64) /\
+  (size a = 16 -> eval rho mu iota (EOp "imul16_hi" [r_ax; a]) * 2 ^ 16 + eval rho mu iota (EOp "imul16_lo" [r_ax; a]) =
+                  (sgn 16 (rho "eax" mod 2 ^ 16) * sgn 16 (eval rho mu iota a)) mod 2 ^ 32).
+Proof. intros rho mu iota a Oa. split; intros Sa; [apply imul32_value | apply imul16_value]; assumption. Qed.
+Print Assumptions C04_imul_wide.
+Theorem C04_imul_truncated : forall rho mu iota b c, operand_ok b = true -> operand_ok c = true -> size b = size c ->
+  let n := size b in eval rho mu iota (EOp "*" [b; c]) = (eval rho mu iota b * eval rho mu iota c) mod 2 ^ n /\
+                     eval rho mu iota (EOp "*" [b; c]) = (sgn n (eval rho mu iota b) * sgn n (eval rho mu iota c)) mod 2 ^ n.
+Proof. exact imul_trunc_value. Qed.
+Print Assumptions C04_imul_truncated.
+Theorem C04_div : forall rho mu iota a, operand_ok a = true -> eval rho mu iota a <> 0 -> let ev := eval rho mu iota in
+  (size a = 8 -> let D := ev r_ah * 2 ^ 8 + ev r_al in D / ev a < 2 ^ 8 -> ev (EOp "div8" [r_ah; r_al; a]) = D / ev a /\ ev (EOp "rem8" [r_ah; r_al; a]) = D mod ev a) /\
+  (size a = 16 -> let D := ev r_dx * 2 ^ 16 + ev r_ax in D / ev a < 2 ^ 16 -> ev (EOp "div16" [r_dx; r_ax; a]) = D / ev a /\ ev (EOp "rem16" [r_dx; r_ax; a]) = D mod ev a) /\
+  (size a = 32 -> let D := ev edx * 2 ^ 32 + ev eax in D / ev a < 2 ^ 32 -> ev (EOp "div32" [edx; eax; a]) = D / ev a /\ ev (EOp "rem32" [edx; eax; a]) = D mod ev a).
+Proof. exact div_value. Qed.
+Print Assumptions C04_div.
+Theorem C04_idiv : forall rho mu iota a, operand_ok a = true -> eval rho mu iota a <> 0 -> let ev := eval rho mu iota in
+  (size a = 8 -> let Ds := sgn 16 (ev r_ah * 2 ^ 8 + ev r_al) in let dv := sgn 8 (ev a) in - 2 ^ 7 <= Z.quot Ds dv < 2 ^ 7 ->
+     sgn 8 (ev (EOp "idiv8" [r_ah; r_al; a])) = Z.quot Ds dv /\ sgn 8 (ev (EOp "irem8" [r_ah; r_al; a])) = Z.rem Ds dv) /\
+  (size a = 16 -> let Ds := sgn 32 (ev r_dx * 2 ^ 16 + ev r_ax) in let dv := sgn 16 (ev a) in - 2 ^ 15 <= Z.quot Ds dv < 2 ^ 15 ->
+     sgn 16 (ev (EOp "idiv16" [r_dx; r_ax; a])) = Z.quot Ds dv /\ sgn 16 (ev (EOp "irem16" [r_dx; r_ax; a])) = Z.rem Ds dv) /\
+  (size a = 32 -> let Ds := sgn 64 (ev edx * 2 ^ 32 + ev eax) in let dv := sgn 32 (ev a) in - 2 ^ 31 <= Z.quot Ds dv < 2 ^ 31 ->
+     sgn 32 (ev (EOp "idiv32" [edx; eax; a])) = Z.quot Ds dv /\ sgn 32 (ev (EOp "irem32" [edx; eax; a])) = Z.rem Ds dv).
+Proof. exact idiv_value. Qed.
+Print Assumptions C04_idiv.
+
 (** the mirror lays the assignments out as the lifter does *)
 Example C04_mirror_layout : forall a b, let c := alu_val Add a b in
   mirror Add a b = [upd_zf c; upd_nf c; upd_pf c; upd_af c; EAff (flag "cf") (add_cf_src a b c); EAff (flag "of") (add_of_src a b c); mk_aff a c].
@@ -417,3 +463,10 @@ Example C04_bit_test_hypotheses_met : let a := EId "eax" 32 true false in let b 
 Proof. cbv zeta. repeat split; vm_compute; congruence. Qed.
 Example C04_dshift_nonvacuous : (300 <= n_dsh)%nat.
 Proof. exact many_dshift_forms. Qed.
+Example C04_muldiv_nonvacuous : (350 <= n_muldiv)%nat.
+Proof. exact many_muldiv_forms. Qed.
+(** `div ecx` with edx:eax = 7 and ecx = 2 meets the hypotheses of the division theorem: quotient 3, remainder 1 *)
+Example C04_div_hypotheses_met : let rho := fun r => if (r =? "eax")%string then 7 else if (r =? "ecx")%string then 2 else 0 in
+  let a := EId "ecx" 32 true false in let ev := eval rho (fun _ => 0) (fun _ _ => 0) in
+  operand_ok a = true /\ ev a <> 0 /\ (ev edx * 2 ^ 32 + ev eax) / ev a < 2 ^ 32 /\ ev (EOp "div32" [edx; eax; a]) = 3 /\ ev (EOp "rem32" [edx; eax; a]) = 1.
+Proof. cbv zeta. repeat split; vm_compute; congruence. Qed.
